@@ -2,8 +2,11 @@ package main
 
 import (
 	"bytes"
+	"crypto/hmac"
 	"crypto/md5"
 	"crypto/sha256"
+	"hash"
+	"strconv"
 	"encoding/base64"
 	"fmt"
 
@@ -18,6 +21,101 @@ import (
 // helper is called again with other inputs and while the caller overwrites the input buffer it
 // passed; at the end of the history every kept result must still equal its copy. (A result
 // built in a recycled buffer, or sharing memory with the argument, changes under the caller.)
+// reusedKeyBuffer: the caller keeps one key buffer and overwrites it in place between calls;
+// every MAC must be the one of the key the buffer holds at the time of the call.
+func reusedKeyBuffer(r *common.Run) {
+	section(r, "HMAC with a reused key buffer", "8 hash constructors x ordered pairs of 6 keys of equal length written into one buffer x data lengths {0,1,65}; also string key after []byte key of the same content", func() (int64, int64) {
+		var ev int64
+		keys := [][]byte{[]byte("k0k0"), []byte("k1k1"), []byte("\x00\x00\x00\x00"), []byte("\xff\xff\xff\xff"), []byte("abcd"), []byte("abce")}
+		buf := make([]byte, 4)
+		for _, h := range hmacHashes {
+			for _, a := range keys {
+				for _, b := range keys {
+					if bytes.Equal(a, b) {
+						continue
+					}
+					for _, dl := range []int{0, 1, 65} {
+						data := pattern(1, dl)
+						copy(buf, a)
+						hashz.Hmac(buf, data, h.newH)
+						copy(buf, b)
+						want := stdHmac(b, data, h.newH)
+						ev += 2
+						// hashz.Hmac returns the lower-case hex text of the MAC (like the digest helpers)
+						if got := hashz.Hmac(buf, data, h.newH); string(got) != fmt.Sprintf("%x", want) {
+							r.Violation("Hmac|wrong-mac|key-buffer-overwritten-in-place-between-calls", fmt.Sprintf("Hmac(key=%q, %d data bytes, %s) = %s, want %x; the key buffer held %q during the previous call", b, dl, h.name, got, want, a),
+								map[string]any{"hash": h.name, "key_before": fmt.Sprintf("%q", a), "key_now": fmt.Sprintf("%q", b), "data_len": dl}, "")
+						}
+						if got := hashz.HmacToString(string(b), data, h.newH); got != fmt.Sprintf("%x", want) {
+							r.Violation("HmacToString|wrong-mac|after-calls-with-a-reused-key-buffer", fmt.Sprintf("HmacToString(string key %q, %s) = %s, want %x", b, h.name, got, want),
+								map[string]any{"hash": h.name, "key": fmt.Sprintf("%q", b)}, "")
+						}
+					}
+				}
+			}
+		}
+		return ev, ev
+	})
+}
+
+func stdHmac(key, data []byte, h func() hash.Hash) []byte {
+	m := hmac.New(h, key)
+	m.Write(data)
+	return m.Sum(nil)
+}
+
+// everyByteInNumerals: ParseUint on numerals in which one position holds each of the 256 byte
+// values in turn (the short-string family only covers a 19-symbol alphabet).
+func everyByteInNumerals(r *common.Run) {
+	section(r, "ParseUint: every byte value in every position", "7 numerals x every position x 256 byte values x bases {0,2,8,10,16,36} x bit sizes {8,64}, string and []byte", func() (int64, int64) {
+		var ev, nt int64
+		seeds := []string{"7", "10", "0x1f", "0b101", "1_000", "zz", "18446744073709551615"}
+		for _, sd := range seeds {
+			for pos := 0; pos <= len(sd); pos++ {
+				for b := 0; b < 256; b++ {
+					var in []byte
+					if pos == len(sd) {
+						in = append([]byte(sd), byte(b))
+					} else {
+						in = []byte(sd)
+						in[pos] = byte(b)
+					}
+					for _, base := range []int{0, 2, 8, 10, 16, 36} {
+						for _, bits := range []int{8, 64} {
+							ev++
+							want, werr := strconv.ParseUint(string(in), base, bits)
+							if werr != nil {
+								nt++
+							}
+							for form := 0; form < 2; form++ {
+								var got uint64
+								var gerr error
+								_, st, p := common.Catch(func() {
+									if form == 0 {
+										got, gerr = strz.ParseUint(string(in), base, bits)
+									} else {
+										got, gerr = strz.ParseUint(append([]byte(nil), in...), base, bits)
+									}
+								})
+								c := map[string]any{"input": fmt.Sprintf("%q", in), "base": base, "bitSize": bits}
+								switch {
+								case p:
+									r.Violation("ParseUint|panic|"+common.PanicSite(st), "ParseUint panicked", c, "")
+								case (gerr == nil) != (werr == nil):
+									r.Violation("ParseUint|error-ness-differs|arbitrary-byte", fmt.Sprintf("strz.ParseUint(%q, %d, %d) = %d, %v; strconv.ParseUint = %d, %v", in, base, bits, got, gerr, want, werr), c, "")
+								case got != want:
+									r.Violation("ParseUint|wrong-value|arbitrary-byte", fmt.Sprintf("strz.ParseUint(%q, %d, %d) = %d, %v; strconv.ParseUint = %d, %v", in, base, bits, got, gerr, want, werr), c, "")
+								}
+							}
+						}
+					}
+				}
+			}
+		}
+		return ev, nt
+	})
+}
+
 func stabilityChecks(r *common.Run) {
 	type fn struct {
 		name string
